@@ -119,6 +119,16 @@ func runC10(o *cli.Opts, run *evid.Run) {
 		cpt := small[(i*7+3)%len(small)]
 		proofs = append(proofs, c10Proof{ref.Points{A: a, B: b, C: cpt}, nil, "synthetic", fmt.Sprintf("C10/synthetic/%d", i)})
 	}
+	// the identity (point at infinity) in each position: its coordinates are exactly zero
+	{
+		var b bn254.G2Affine
+		b.ScalarMultiplication(&g2, big.NewInt(3))
+		proofs = append(proofs,
+			c10Proof{ref.Points{A: bn254.G1Affine{}, B: b, C: small[1]}, nil, "synthetic-identity", "C10/identity/A"},
+			c10Proof{ref.Points{A: small[2], B: bn254.G2Affine{}, C: small[1]}, nil, "synthetic-identity", "C10/identity/B"},
+			c10Proof{ref.Points{A: small[2], B: b, C: bn254.G1Affine{}}, nil, "synthetic-identity", "C10/identity/C"},
+			c10Proof{ref.Points{A: bn254.G1Affine{}, B: bn254.G2Affine{}, C: bn254.G1Affine{}}, nil, "synthetic-identity", "C10/identity/ABC"})
+	}
 	// coordinates of every bit length 1..254 (x = 2^(k-1) + small): machine-word boundaries (63/64/65 bits …) included
 	for k := 1; k <= 253; k++ {
 		pt, ok := g1WithXNear(new(big.Int).Lsh(big.NewInt(1), uint(k-1)))
@@ -247,6 +257,22 @@ func runC10(o *cli.Opts, run *evid.Run) {
 			run.Violate(fmt.Sprintf("C10/overwide/%d", i), "a coordinate wider than 32 bytes was silently truncated to a valid proof", nil)
 		}
 		run.Case("overwide-coordinate", true, fmt.Sprint(i), err == nil, map[string]any{"coordinate": i})
+	}
+	// a negative number is not a coordinate: it must not decode to the proof of its magnitude
+	for i := 0; i < 8; i++ {
+		c := proofs[0].pt.Coords()
+		cs := coordStrings(c)
+		cs[i] = "-" + cs[i]
+		doc := ref.MustJSON(map[string]any{"ar": []string{cs[0], cs[1]}, "bs": [][]string{{cs[2], cs[3]}, {cs[4], cs[5]}}, "krs": []string{cs[6], cs[7]}})
+		var back prover.Proof
+		err := safeUnmarshal(doc, &back)
+		if isPanic(err) {
+			run.Violate(fmt.Sprintf("C10/negative/%d/panic", i), "proof decoder panics on a negative coordinate: "+err.Error(), nil)
+		}
+		if err == nil && back.Proof != nil && ref.GetPoints(back.Proof).Equal(proofs[0].pt) {
+			run.Violate(fmt.Sprintf("C10/negative/%d", i), "a document with a NEGATIVE coordinate decodes to the valid proof of its magnitude (the JSON is not the proof's coordinates)", map[string]any{"json": string(doc)})
+		}
+		run.Case("negative-coordinate", true, fmt.Sprint("neg", i), err == nil, map[string]any{"coordinate": i})
 	}
 	run.Require("proofs with a coordinate shorter than 32 bytes", run.GetInt("proofs_with_short_coordinate"), 50)
 	run.Require("real proofs", run.ClassTally("real").Cases, 1)
